@@ -100,6 +100,10 @@ var fnReg = map[string]FnEntry{
 	"sum:int":       {-1, "int", "int", func(v []int) int { r := 0; for _, x := range v { r += x }; return r }},
 	"min:int":       {-1, "int", "int", func(v []int) int { r := v[0]; for _, x := range v { if x < r { r = x } }; return r }},
 	"max:int":       {-1, "int", "int", func(v []int) int { r := v[0]; for _, x := range v { if x > r { r = x } }; return r }},
+	"sum:float":     {-1, "float", "float", func(v []float64) float64 { r := 0.0; for _, x := range v { r += x }; return r }},
+	"avg:float":     {-1, "float", "float", func(v []float64) float64 { r := 0.0; for _, x := range v { r += x }; return r / float64(len(v)) }},
+	"min:float":     {-1, "float", "float", func(v []float64) float64 { r := v[0]; for _, x := range v { if x < r { r = x } }; return r }},
+	"max:float":     {-1, "float", "float", func(v []float64) float64 { r := v[0]; for _, x := range v { if x > r { r = x } }; return r }},
 	"majority:bool": {-1, "bool", "bool", func(v []bool) bool { t := 0; for _, x := range v { if x { t++ } }; return 2*t > len(v) }},
 }
 
